@@ -446,9 +446,10 @@ PROPS["C11"] = {"theorems": ["C11_scalar", "C11_scalar_schema", "C11_scalar_vali
                              "predCheck_PredOK", "predCheck_noRaise", "SchemasDecide.count", "C11_record_schema",
                              "node_record_validator", "node_ntuple_validator", "fields_formula", "foldl_jset_nodup",
                              "C11_map_schema", "node_map_validator", "node_equals_validator", "equals_schema_eq",
-                             "node_utuple_validator", "PredOK_minKeys", "PredOK_maxKeys", "jaddPred_noclash", "src_pred_schema", "src_schema_validator_pinned"],
+                             "node_utuple_validator", "PredOK_minKeys", "PredOK_maxKeys", "jaddPred_noclash", "src_pred_schema", "src_schema_validator_pinned", "C11_src_pred", "C11_src_minLength"],
                 "modules": ["KodaModel.Properties.C11", "KodaModel.Properties.C11Pat", "KodaModel.Properties.C11Containers",
                             "KodaModel.Properties.C11Record", "KodaModel.Properties.C11Glue", "KodaModel.Properties.C10Src",
+                            "KodaModel.Properties.C11Src",
                             "KodaModel.Properties.C10Pins"],
                 "level_note": "the text of the schema generators for validators (json_schema.py, everything but the translated generate_schema_predicate) is pinned against the current source (src_schema_validator_pinned).  the predicate keywords are tied to the source (src_pred_schema: the translated "
                               "generate_schema_predicate is the model's predSchema, which the PredOK_* theorems are about).  Proved: `C11_iff_partial` — for every tree (any depth, any width) built from string / integer / float / "
